@@ -91,6 +91,21 @@ CHECKS = {
          "property-based testing over module configurations with recording test doubles + exhaustive small-scope enumeration of (kind, origin, mode) cells",
          "DESIGN.md 4/C17",
          "Recording modules and puppets are written in the harness; with a real keeper in a slot only requests that keeper supports are sent."),
+ "C14": ("staking", "exploration",
+         "Generated staking histories executed through App and compared after every operation with an integer reference: balances, pool, supply, Delegation/AllDelegations answers; listed invalid operations must fail with byte-identical storage; every unbonding is paid exactly (folded through floor(x(1-p)) per slash) by the first block update at or after maturity and not earlier; panics of any operation or block update are violations.",
+         "model-based property testing over operation histories with history invariants (state-dependent symbolic amounts, shrinking to replay file)",
+         "DESIGN.md 4/C14",
+         "Trusts the integer / 256-bit fixed-point reference in harness/src/engines/staking.rs; domain restricted to stakes <= 1e8 tokens, rate <= 1000 %, whole-second time steps (no overflow of the crate's 128-bit fixed point: the statement's precondition)."),
+ "C15": ("staking", "exploration",
+         "Same histories with the reward dimension on: at every step, for every positive delegation, withdrawn + shown rewards are checked against upper and lower accruals of the linear law (explicit tolerance 1e-6 token and one token per withdrawal + 1); every successful withdrawal pays exactly the shown amount to the current withdraw address, mints nothing else, resets the pending reward and leaves other pairs untouched; metamorphic re-run with extra reward checkpoints must give the same totals within (withdrawals+1) tokens.",
+         "model-based property testing with interval (upper/lower bound) oracle + metamorphic relation (extra reward checkpoints)",
+         "DESIGN.md 4/C15",
+         "Trusts the integer / 256-bit fixed-point reference in harness/src/engines/staking.rs; domain restricted to stakes <= 1e8 tokens, rate <= 1000 %, whole-second time steps (no overflow of the crate's 128-bit fixed point: the statement's precondition)."),
+ "C16": ("staking", "exploration",
+         "Histories biased to slashes; around every slash all delegations, balances, pool and pending rewards are snapshotted and compared: slashed validator's delegations within [floor-chain, floor of exact scaling], never increased, removed for p = 1; everything else bit-identical; invalid slashes rejected without effect; later payouts of pending unbondings scaled per slash.",
+         "model-based property testing with interval oracle for scaled stakes and before/after snapshots (non-interference)",
+         "DESIGN.md 4/C16",
+         "Trusts the integer / 256-bit fixed-point reference in harness/src/engines/staking.rs; domain restricted to stakes <= 1e8 tokens, rate <= 1000 %, whole-second time steps (no overflow of the crate's 128-bit fixed point: the statement's precondition)."),
 }
 
 NOT_YET = "check not built yet in this revision of /verif (work in progress; planned, see DESIGN.md section 4)"
